@@ -48,9 +48,45 @@ def make_program(ch: Choices, tier: str) -> Program:
     stages.append(j)
     stages.append({"ref": "Z", "deps": ["J"], "ctx": {}, "tasks": [ok()]})
     spec: dict[str, Any] = {"name": "c04", "wf_ctx": {}, "stages": stages}
-    if ch.flip("c04.bt", 0.2):
+    if ch.flip("c04.bt", 0.5):
         spec["builder_tasks"] = True
     return Program(spec)
+
+
+def extra_workers(ch: Choices, info: dict[str, Any]) -> list[Any]:
+    """A peer that re-sends StartStage(J) once J's upstream allows it to start (what a recovery sweep, a
+    second upstream completion or a re-queued mutex waiter legitimately produce): several workers then
+    handle start requests for the same stage at the same time."""
+    if not ch.flip("c04.dup", 0.6):
+        return []
+    n = 1 + ch.pick("c04.ndup", 2)
+    info["duplicate_startstage"] = n
+
+    def mk(world: Any) -> Any:
+        def body(wk: Any) -> None:
+            from stabilize.queue.messages import StartStage
+
+            for _ in range(400):
+                if world.sched.stopping:
+                    return
+                rows = world.hquery("SELECT id, execution_id, status, ref_id FROM stage_executions WHERE parent_stage_id IS NULL")
+                by = {r["ref_id"]: r for r in rows}
+                j = by.get("J")
+                ups = [r for k, r in by.items() if k.startswith("B")]
+                if j is None or j["status"] != "NOT_STARTED":
+                    if j is not None and j["status"] != "NOT_STARTED":
+                        return
+                elif ups and sum(1 for r in ups if r["status"] in ("SUCCEEDED", "FAILED_CONTINUE", "SKIPPED")) >= 1:
+                    with world.as_client("peer-startstage"):
+                        for _i in range(n):
+                            world.queue.push(StartStage(execution_type="PIPELINE", execution_id=j["execution_id"], stage_id=j["id"]))
+                    world.fault("duplicate_startstage", n)
+                    return
+                world.sched.sleep(0.002)
+
+        return body
+
+    return [mk]
 
 
 def judge(prog: Program, run: dict[str, Any], info: dict[str, Any]) -> list[dict[str, Any]]:
@@ -113,7 +149,7 @@ def judge(prog: Program, run: dict[str, Any], info: dict[str, Any]) -> list[dict
     return one_violation("C04", problems, h)
 
 
-CHECK = WCheck("C04", {}, judge, make_program=make_program,
+CHECK = WCheck("C04", {}, judge, make_program=make_program, extra_workers=extra_workers,
                nontrivial=lambda run, info: run["stats"]["preemptions"] > 0)
 run_one = CHECK.run_one
 replay_one = CHECK.replay_one
